@@ -1,5 +1,5 @@
 """C16 — WaitGroup / OneShotEvent release every waiter exactly when the count hits zero (structural clauses)."""
-from rules import lib_coro, lib_core, lib_exec, lib_order, lib_ready
+from rules import lib_coro, lib_core, lib_exec, lib_order, lib_ready, lib_shape
 from vlib import lin, pathwalk
 
 HEAD = 'yaclib::OneShotEvent::_head'
@@ -7,6 +7,11 @@ COUNT = 'yaclib::detail::AtomicCounter::count'
 
 
 class EvWalker(lib_core.CoreWalker):
+    def on_node(self, fn, n, st):
+        super().on_node(fn, n, st)
+        if n['k'] == 'CXXDeleteExpr':
+            st.events.append(('delete', fn.loc(n)))
+
     def on_edge(self, fn, ci, taken, st):
         c = fn.sn(ci)
         neg = False
@@ -48,7 +53,10 @@ def run(ctx):
                    'then releases', minimum=3)
     rsu = ctx.rule('R-SUSPEND', 'event awaiters: bool await_suspend == TryAdd outcome', minimum=0)
     rh = ctx.rule('R-HANDOFF', 'event awaiters: no field touched after hand-off', minimum=0)
+    rsh = ctx.rule('R-SHAPE', 'SetImpl calls every waiter of the detached list exactly once and loses none (shape '
+                   'analysis over list segments, all lengths)', minimum=1)
     for cfg, fb in sorted(fbs.items()):
+        lib_shape.check(ctx, fb, rsh, lambda qn: 'SetImpl' in qn and 'BaseCore' not in qn, 1)
         lib_order.check(ctx, fb, cfg, [HEAD, COUNT], rw, ro, rc)
         lib_order.check_counter_reads(ctx, fb, ro)
         # ---- readiness
@@ -190,20 +198,17 @@ def run(ctx):
                 dele = [n for n in f.own_nodes() if n['k'] == 'CXXDeleteExpr']
                 if not out:
                     continue
-            # the delete expression is reachable only on the not-registered edge
-            cfg_ = f.cfg
-            for d in [n for n in f.own_nodes() if n['k'] == 'CXXDeleteExpr']:
-                pos = cfg_.pos_of(d['i'])
-                # find the TryAdd branch block
-                ok = False
-                for b in cfg_.blocks.values():
-                    if b.cond is not None and f.sn(b.cond).get('cn', '').endswith('::TryAdd'):
-                        tr, fa = b.succ[0], b.succ[1]
-                        ok = pos is not None and fa is not None and (pos[0] == fa or fa in cfg_.dom().get(pos[0], ())) \
-                            and not (tr is not None and (pos[0] == tr or tr in cfg_.dom().get(pos[0], ())))
-                if not ok:
-                    ctx.report(rtw, key, f.loc(d), 'the waiter is deleted on a path on which it may be registered in '
-                               'the event list (use after free when the event is set)')
+            # the delete expression is reached only on paths on which TryAdd reported "not registered"
+            for st, _ in res:
+                ev = st.events
+                for i, e in enumerate(ev):
+                    if e[0] != 'delete':
+                        continue
+                    outs = [x for x in ev[:i] if x[0] == 'outcome' and x[1] == 'TryAdd']
+                    if not outs or outs[-1][2] is not False:
+                        ctx.report(rtw, key, e[1], 'the waiter is deleted on a path on which it may be registered in '
+                                   'the event list (use after free when the event is set)')
+                        break
         for f in fb.by_qn('yaclib::OneShotEvent::TimedWaiter::Call'):
             key = 'R-TIMEDWAITER TimedWaiter::Call'
             ctx.instance(rtw, key, None)
